@@ -136,6 +136,44 @@ fn laws(ctx: &mut Ctx) {
             }
         }
     }
+    // NIL-ARG: an include argument whose value is nil is a binding like any other -- it shadows what the
+    // caller, an assignment or a counter holds for that name
+    {
+        let ps: Vec<PartialDef> = vec![
+            ("show".into(), Ok(vec![text("["), out(var("t")), text("]"), Node::Cond { c: Cond::Exist(var("t")), mode: true, thn: vec![text("SEEN")], els: Some(vec![text("nil")]), elsif: false }])),
+        ];
+        let nparser = build_parser(&ps, Policy::Eager);
+        for (lower, pre) in [
+            ("datum", vec![]),
+            ("assigned", vec![Node::Assign("t".into(), lit_s("ASSIGNED"), vec![])]),
+            ("captured", vec![Node::Capture("t".into(), vec![text("CAPTURED")])]),
+            ("counter", vec![Node::Incr("t".into())]),
+            ("loopvar", vec![]),
+        ] {
+            for argsrc in [Expr::Lit(Value::Nil), var("nothing"), path("o", &["nilmember"])] {
+                let mut d = Object::new();
+                if lower == "datum" {
+                    d.insert("t".into(), Value::scalar("DATA"));
+                }
+                d.insert("nothing".into(), Value::Nil);
+                let mut o = Object::new();
+                o.insert("nilmember".into(), Value::Nil);
+                d.insert("o".into(), Value::Object(o));
+                let inc = Node::Include(lit_s("show"), vec![("t".into(), argsrc.clone())]);
+                let mut t = pre.clone();
+                if lower == "loopvar" {
+                    t.push(Node::For { x: "t".into(), rng: RangeE::Counted(lit_i(7), lit_i(7)), limit: None, offset: None, rev: false, body: vec![text(M), inc], els: None });
+                } else {
+                    t.push(text(M));
+                    t.push(inc);
+                }
+                let obs = render_text(&nparser, &src_tmpl(&t), &d);
+                let ok = matches!(&obs, Obs::Ok(s) if s.rfind(M).map(|p| &s[p + M.len()..] == "[]nil").unwrap_or(false));
+                let k = if ok { "law".to_string() } else { format!("SCOPED:nil-argument:want={}", crate::proto::hex("[]nil")) };
+                ctx.emit(render_case("c04", &k, &t, &d, &ps, &obs));
+            }
+        }
+    }
     // CAPTURE with an interrupt raised inside its body: the text printed up to the interrupt is bound
     // all the same (the interrupt concerns the enclosing loop, not the binding)
     for x in ["x", "a", "size"] {
